@@ -513,6 +513,12 @@ func Display(v Value) string {
 			parts[i] = Display(e)
 		}
 		return "{" + strings.Join(parts, " ") + "}"
+	case UnionV:
+		// the String method fc emits for every case struct (C03: "(X0: 4)", "(Y0)")
+		if x.Payload == nil {
+			return "(" + x.Case + ")"
+		}
+		return "(" + x.Case + ": " + Display(x.Payload) + ")"
 	}
 	return fmt.Sprintf("?%T", v)
 }
